@@ -169,7 +169,8 @@ func (p *clientStreamProcessorFMP4) processSegment(ctx context.Context, seg *seg
 				empty = false
 			}
 		}
-		if empty {
+		// (the leading stream must create the time converter first: renditions wait for it)
+		if empty && (!p.isLeading || p.trackProcessors != nil) {
 			return nil
 		}
 
